@@ -1,4 +1,4 @@
-CONSTANTS Tasks = {t1, t2}  MaxOps = 2  YieldSet = TRUE  TSO = TRUE  Bug = "none"  RelPlain = TRUE  Nb0 = 7  EnvNb = FALSE  WordMod = 0
+CONSTANTS Tasks = {t1, t2}  MaxOps = 2  YieldSet = TRUE  TSO = TRUE  Bug = "none"  RelPlain = TRUE  Nb0 = 7  EnvNb = FALSE  AttOverride = 9  TrackYield = TRUE  Stray = TRUE  WordMod = 0
 CONSTANT Prog <- ExtractedProg  EntryAcq <- ExtractedEntryAcq  EntryTry <- ExtractedEntryTry  EntryRel <- ExtractedEntryRel
 SPECIFICATION Spec
 INVARIANT MutualExclusion
@@ -8,5 +8,6 @@ INVARIANT EntrySeesAll
 INVARIANT NoWildAccess
 INVARIANT NeighbourIntact
 INVARIANT TryFailsClean
+INVARIANT YieldBound
 CHECK_DEADLOCK FALSE
 SYMMETRY Symm
